@@ -436,6 +436,14 @@ def main(tier, only=None):
                 what = '%s: %s -- batch %s; engine %s, scalar definition %s' % (desc, o['kind'], json.dumps(o.get('witness')), json.dumps(rp['how'].get('engine')), json.dumps(rp['how'].get('expected')))
                 out = rep.counterexample(key, what[:500], {'obligation': o, 'desc': desc, 'replay': rp}, rp['reproduced'])
                 rep.obligation(out == 'known')
+    # string functions: the index arithmetic of substring, for every string length
+    if not only or only == 'substring':
+        from . import c14s
+        before = list(rep.cov.get('functions_encoded', []))
+        c14s.run(rep, thorough)
+        fns |= set(rep.cov.get('functions_encoded', []))
+        nats |= set(d for d in NATIVE_DOC if 'chars window' in d or 'saturating' in d or 'str::chars' in d)
+        sub_bounds = rep.cov.get('bounds', {}).get('substring')
     rep.cov['functions_encoded'] = sorted(f for f in fns if 'array' in f or 'ops' in f or f in ('binary_op', 'unary_op', 'select_op', 'try_unary_op', 'safen_dividend', 'f'))[:80]
     rep.cov['functions_encoded_count'] = len(fns)
     rep.cov['trusted_base'] = ['natives (std / bitvec models): ' + n for n in sorted(nats)] + ['crate contracts: ' + c for c in CRATE_CONTRACTS]
@@ -444,7 +452,8 @@ def main(tier, only=None):
     rep.cov.setdefault('traces_validated_against_impl', 0)
     rep.cov['bounds'] = {'rows_per_array': '1 (2 for and/or/not/select; 2 everywhere in thorough)', 'raw slot contents and validity bits': 'fully symbolic (bit-vectors of the real width)',
                          'profiles': ['dev (overflow-checks on)'] + (['release (overflow-checks off)'] if thorough else []),
-                         'arms': 'Bool and Int16/Int32/Int64 arms of every kernel; Float64/Decimal/String/Date arms are outside (arm coverage only)'}
+                         'arms': 'Bool and Int16/Int32/Int64 arms of every kernel; Float64/Decimal/String/Date arms are outside (arm coverage only)',
+                         'substring': 'every string length n < 2^31 (the string is abstracted to its length), every i32 start and length; window claimed for start >= 0 and length >= 0, absence of panics for all'}
     rep.assumptions = ['array helpers are interpreted from their own MIR (binary_op, unary_op, select_op, try_unary_op, safen_dividend, from_data, builders); std iterator adaptors, bitvec and integer primitives are modelled (listed in trusted_base)',
                        'batch lengths beyond 2 rows and the 64-bit word boundary are carried by BitVecExt (checked on compiled code under C14k/Kani when available)']
     return rep.finish()
